@@ -183,8 +183,10 @@ func (f *Fosite) DefaultClientAuthenticationStrategy(ctx context.Context, r *htt
 		if err != nil {
 			return nil, errorsx.WithStack(err)
 		}
-		if err := f.Store.SetClientAssertionJWT(ctx, jti, time.Unix(expiry, 0)); err != nil {
+		if err := f.Store.SetClientAssertionJWT(ctx, jti, time.Unix(expiry, 0)); errors.Is(err, ErrJTIKnown) {
 			return nil, err
+		} else if err != nil {
+			return nil, errorsx.WithStack(ErrServerError.WithWrap(err).WithDebug(err.Error()))
 		}
 
 		if !audienceMatchesTokenURLs(claims, f.Config.GetTokenURLs(ctx)) {
